@@ -245,14 +245,17 @@ func scalePersist(res *core.ExtraResult, prop string, tier string, scratch strin
 				want[k] = val(i)
 			}
 		}
-		for i := 0; i < 6000; i++ {
+		// every key k comes with k\x00 and k\x00\x00: wherever an iterator is re-created (after 1024, 4096, 8192 ... visits), the
+		// key it stopped at is, two times out of three, a proper prefix of the next ones
+		for i := 0; i < 2800; i++ {
 			k := fmt.Sprintf("k%06d", i)
 			put(k, i)
-			if i%512 == 511 || i == 4095 || i == 4096 {
-				put(k+"\x00", i+1)
-				put(k+"7", i+2)
-				put(k+"/child", i+3)
-				put(k+"\xff", i+4)
+			put(k+"\x00", i+1)
+			put(k+"\x00\x00", i+2)
+			if i%512 == 511 {
+				put(k+"7", i+3)
+				put(k+"/child", i+4)
+				put(k+"\xff", i+5)
 			}
 		}
 		walk := func(q interface {
